@@ -166,6 +166,11 @@ def cmd_seeded(args):
     return seeded.run(args)
 
 
+def cmd_benign(args):
+    from . import seeded
+    return seeded.run_benign(args)
+
+
 def main(argv=None):
     ap = argparse.ArgumentParser(prog="gverif")
     sub = ap.add_subparsers(dest="cmd", required=True)
@@ -199,6 +204,10 @@ def main(argv=None):
     a.add_argument("--repo")
     a.add_argument("--keep", action="store_true")
     a.set_defaults(fn=cmd_seeded)
+    a = sub.add_parser("benign")
+    a.add_argument("ids", nargs="*")
+    a.add_argument("--repo")
+    a.set_defaults(fn=cmd_benign)
     args = ap.parse_args(argv)
     try:
         return args.fn(args)
